@@ -28,6 +28,8 @@ class Folder:
         k = x["k"]
         if k in ("int", "bool") and isinstance(x.get("cv"), int):
             return x["cv"]
+        if k in ("call", "binop", "cast", "paren", "unop") and isinstance(x.get("cv"), int):
+            return x["cv"] & self.M if x["cv"] < 0 else x["cv"]      # a constant the compiler evaluated (constexpr helper, literal arithmetic)
         if k in ("paren", "cast"):
             v = self.fold(fn, x["sub"], depth + 1)
             return int(bool(v)) if (x.get("ty") == "bool") else v
